@@ -176,6 +176,37 @@ Proof.
         [exact (H1 e Hin Hs) | exact (H2 e Hin Hs) | exact (H3 Hin)].
 Qed.
 
+(* ---- exclusion files: every line of every file is in force --------------------------------- *)
+Lemma gen_regexes_in_lemma (files : exclusion_files) re :
+  In re (gen_regexes files) <-> exists f, In f files /\ In re f.
+Proof.
+  unfold gen_regexes. rewrite in_concat. split; intros [f [H1 H2]]; exists f; split; assumption.
+Qed.
+
+(* order: the expressions of an earlier file come before those of a later one, each file's in
+   line order *)
+Lemma gen_regexes_app_lemma (fs1 fs2 : exclusion_files) :
+  gen_regexes (fs1 ++ fs2) = gen_regexes fs1 ++ gen_regexes fs2.
+Proof. unfold gen_regexes. apply concat_app. Qed.
+
+(* whatever Go's regexp answers ([matches]): a URL whose text is matched by a line of ANY of the
+   exclusion files is out of scope, under every configuration of the four lists *)
+Lemma exclusion_files_all_loaded_lemma (matches : bytes -> bytes -> bool) (files : exclusion_files) :
+  forall f re (c : opcfg) host text,
+    In f files -> In re f -> matches re text = true ->
+    in_scope c host text (regex_bits matches files text) = false.
+Proof.
+  intros f re c host text Hf Hre Hm. apply exclusion_wins_lemma. apply excluded_spec. right. right.
+  unfold regex_bits. apply in_map_iff. exists re. split; [exact Hm|].
+  apply gen_regexes_in_lemma. exists f. split; assumption.
+Qed.
+
+Example ex_two_files :
+  gen_regexes [[bs "a"; bs ""]; []; [bs "b"]] = [bs "a"; bs ""; bs "b"]
+  /\ in_scope (OC [] [] [] []) (bs "h.example") (bs "http://h.example/x.pdf")
+       (regex_bits (fun re t => contains re t) [[bs ".pdf"]; [bs "zzz"]] (bs "http://h.example/x.pdf")) = false.
+Proof. vm_compute. split; reflexivity. Qed.
+
 (* ---- NormalizeURL's tests -------------------------------------------------------------- *)
 Lemma shape_ok_spec_lemma proto hn :
   shape_ok proto hn = true <->
